@@ -25,6 +25,7 @@ EXPLANATION = (
     ' Round 6: (11) an override of the bottom margin in Overlay.calculate_padding_filler keeps top + height + bottom == maxrow or is made exactly under height > maxrow; (12) Columns.column_widths reserves, credits back and floors weighted columns with one and the same amount.'
     ' (13) GUARD: a division by a total of weights is made only where that total was tested against 0 (fix 8b4fc37: zero weights only).'
     ' Round 7: (14) PAIR: padding is moved from one side to the other only where the tests show the giving side positive and the receiving side negative (both mirror branches of the helpers); (15) FLAG-FWD: a self-call to a helper taking `focus` passes the method\'s own focus flag, not a per-item flag; (16) SIB: every relative width is a share of the columns net of the left / right margins - Overlay.rows() like calculate_left_right_padding() (fix 8affa45).'
+    ' Round-8 triage: (17) SIB: Columns.pack() counts widths and dividers over the columns render() draws (fix ed8f003).'
 )
 NOT_DECIDED = "Non-negativity of every child dimension, proportionality within one column, focus-column visibility, min-width interaction beyond the ordering clause, alignment rounding - integer-rounding properties over ranges."
 ASSUMPTIONS = []
@@ -557,6 +558,25 @@ def rule_reduce_padding_mirror(ctx: Ctx) -> RuleResult:
     return rr
 
 
+def rule_fixed_columns_total(ctx: Ctx) -> RuleResult:
+    """Fixed Columns: pack(()) states the width, render(()) lays the columns out - it skips a column of width 0 and
+    gives every drawn column but the last position a divider.  pack() has to count the same way: its total sums
+    width (+ divider) over the columns that pass the same `width > 0` filter, it does not multiply the divider by
+    the number of all columns.  Before fix ed8f003 `sum(widths) + dividechars * (len(widths) - 1)` counted a divider
+    for a hidden ('weight', 0) column: pack(()) == (12, 1), render(()) 11 columns wide."""
+    p = ctx.p
+    rr = RuleResult("SIB", "C19.17", "Columns.pack() counts widths and dividers over the columns render() draws (width > 0), not over all columns", floor=1)
+    pk = p.func("urwid.widget.columns.Columns.pack")
+    rn = p.func("urwid.widget.columns.Columns.render")
+    hides = any(isinstance(n, ast.If) and isinstance(n.test, ast.Compare) and isinstance(n.test.ops[0], (ast.LtE, ast.Lt, ast.Eq)) and isinstance(n.test.comparators[0], ast.Constant) and n.test.comparators[0].value == 0 and any(isinstance(x, ast.Continue) for x in n.body) for n in rn.own_nodes())
+    per_all = [b for b in pk.own_nodes() if isinstance(b, ast.BinOp) and isinstance(b.op, ast.Mult) and "dividechars" in ast.unparse(b) and "len(" in ast.unparse(b)]
+    filtered = any(isinstance(g, (ast.GeneratorExp, ast.ListComp)) and any(any(isinstance(c, ast.Compare) and isinstance(c.ops[0], (ast.Gt, ast.GtE, ast.NotEq)) for c in ast.walk(i)) for gen in g.generators for i in gen.ifs) for g in pk.own_nodes())
+    rr.inst("Columns.pack", True, {"render_hides_zero_width_columns": hides, "divider_times_column_count": [norm(b, 50) for b in per_all], "total_filtered_like_render": filtered})
+    if hides and (per_all or not filtered):
+        rr.add(finding("SIB", pk, per_all[0] if per_all else pk.node, "render() skips columns of width 0 (they take no divider either), pack() counts widths and dividers over all columns: with a hidden column the width pack(()) states is larger than the canvas render(()) returns", construct="pack counts a divider for hidden columns"))
+    return rr
+
+
 def rule_share_net_of_margins(ctx: Ctx) -> RuleResult:
     """A relative width is a share of the columns the fixed left / right margins leave: calculate_left_right_padding
     (what the rendering uses) computes `max(maxcol - left - right, 0) * width_amount / 100`.  Every other place in
@@ -623,6 +643,7 @@ def run(ctx: Ctx):
         rule_reduce_padding_mirror(ctx),
         fwd.run_self_fwd(p, "C19.15", ("urwid.widget",), floor=10),
         rule_share_net_of_margins(ctx),
+        rule_fixed_columns_total(ctx),
     ]
 
 
@@ -632,6 +653,7 @@ _PD = "urwid/widget/padding.py"
 _FL = "urwid/widget/filler.py"
 _G = "urwid/widget/grid_flow.py"
 MUTANTS = [
+    Mut("columns-pack-divider-per-column", "urwid/widget/columns.py", "Columns.pack", "        cols = sum(width + (self.dividechars if i < len(widths) - 1 else 0) for i, width in enumerate(widths) if width > 0)\n", "        cols = sum(widths) + self.dividechars * max(len(widths) - 1, 0)\n", "SIB|widget.columns.Columns.pack|pack counts a divider for hidden columns"),
     Mut("overlay-rows-relative-of-full-width", "urwid/widget/overlay.py", "Overlay.rows", "                width = max(int(maxwidth * self.width_amount / 100 + 0.5), (self.min_width or 0))", "                width = max(int(size[0] * self.width_amount / 100 + 0.5), (self.min_width or 0))", "SIB|widget.overlay.Overlay.rows|relative width taken from size[0], not net of the margins"),
     Mut("twin-overlay-rows-relative-inline", "urwid/widget/overlay.py", "Overlay.rows", "                width = max(int(maxwidth * self.width_amount / 100 + 0.5), (self.min_width or 0))", "                width = max(int(max(0, size[0] - (self.right or 0) - (self.left or 0)) * self.width_amount / 100 + 0.5), (self.min_width or 0))", twin=True),
     Mut("pile-rows-with-item-focus", "urwid/widget/pile.py", "Pile.get_rows_sizes", "item_rows = self.get_item_rows(size, focus)", "item_rows = self.get_item_rows(size, item_focus)", "FLAG-FWD|widget.pile.Pile.get_rows_sizes|self-call passes item_focus as focus"),
